@@ -200,6 +200,11 @@ def model_cmd(model, pre_events, req, agent, real_new_events, po=None):
     ids = [e["id"] for e in real_new_events if e["k"] == "new"]
     uuids = [e["uuid"] for e in real_new_events if e["k"] == "new"]
     mreq = {k: v for k, v in req.items() if k != "stdin_raw"}
+    # JSON on stdin: the model decodes the very bytes the real command was given (ErgoModel.Input) — what the harness believes the document
+    # says (`json` / `plan`, filled in with the help of the real decoder) stays in the request only for commands without such a document
+    sin = stdin_of(req)
+    if sin is not None and ((req["cmd"] in ("new_task", "new_epic", "set") and req.get("piped", True) and not req.get("body_stdin")) or req["cmd"] == "plan"):
+        mreq["stdin_hex"] = sin.hex()
     # a failing create wrote no event to read the drawn id back from: give the model spare draws so it gets
     # past id selection to the follow-up validation, as the real code does
     ids = ids + ["~spare%d" % i for i in range(8)]
